@@ -321,3 +321,9 @@ Section SmallVector.
   Definition sm_contents (x : smallv) : list Z := match x with SmS o => map cellz (scontents o) | SmD l => l end.
   Definition sm_is_static (x : smallv) : bool := match x with SmS _ => true | SmD _ => false end.
 End SmallVector.
+
+(* ---------- utl::tuple / utl::tuplev2 (arity 1..12): a tuple is the list of its elements.  The harness fills element I
+   of an arity-n source with base + 7*I + 1 (distinct values, exact in every element type used). *)
+Definition tup_vals (base : Z) (n : nat) : list Z := map (fun i => (base + 7 * Z.of_nat i + 1)%Z) (seq 0 n).
+Definition tup_cat (a b : list Z) : list Z := a ++ b.
+Definition tup_append (a : list Z) (v : Z) : list Z := a ++ [v].
